@@ -9,7 +9,7 @@ mkdir -p bin evidence/replay
 /verif/bin/translator -repo /repo -out /verif/coq/theories/Gen
 (cd coq && coq_makefile -f _CoqProject -o Makefile >/dev/null && timeout 3000 make -j16 >/dev/null)
 (cd ocaml && coqc -Q ../coq/theories Ojg ../coq/theories/Extract/Extract.v -o Extract.vo >/dev/null && \
-   ocamlfind ocamlopt -O3 -w -a model.mli model.ml dispatch.ml driver.ml -o /verif/bin/model)
+   ocamlfind ocamlopt -O3 -w -a model.mli model.ml sexp.ml dispatch.ml driver.ml -o /verif/bin/model)
 [ -f harness/go.sum ] || cp /repo/go.sum harness/go.sum 2>/dev/null || true
 (cd harness && go build -tags verif -o /verif/bin/harness .)
 echo setup ok
